@@ -86,7 +86,9 @@ fn main() {
         "C05" => props::c05::check(&ctx),
         "C06" => props::c06::check(&ctx),
         "C07" => props::c07::check(&ctx),
+        "C09" => props::c09::check(&ctx),
         "C10" => props::c10::check(&ctx),
+        "C11" => props::c11::check(&ctx),
         "C13" => props::c13::check(&ctx),
         _ => {
             eprintln!("unknown property {prop}");
